@@ -148,7 +148,7 @@ type doc
 		}
 	}
 	// generated
-	sem.RunCases(c, base, "mem", c.Pick(60, 600), gen.Options{NoConditions: true}, 0, 6, func(i int, r *rand.Rand, p *sem.Prepared, _ []*openfgav1.TupleKey) {
+	sem.RunCases(c, base, "mem", c.Pick(60, 600), gen.Options{NoConditions: true, HierarchyEvery: 3}, 0, 6, func(i int, r *rand.Rand, p *sem.Prepared, _ []*openfgav1.TupleKey) {
 		cs := servers[i%len(servers)]
 		subjects, _, nodes := sem.RequestSpace(r, p, 4, 1)
 		rc := ref.NewCase(p.Ref, p.Stored, nil, sem.ExtraObjects(nodes, subjects)...)
